@@ -72,7 +72,7 @@ def genExecCmds (c : Cluster) : Gen (List (List Bytes)) := do
   return (← Gen.shuffle base).take k
 
 def execGen (seed idx size : Nat) : Case :=
-  let (c, cmds) := (do let c ← (if idx < fixedClusters.length then pure (fixedClusters.getD idx default).1 else Gen.genCluster size true)
+  let (c, cmds) := (do let c ← (if idx < fixedClusters.length then pure (fixedClusters.getD idx default).1 else Gen.genCluster size true true)
                        let cmds ← genExecCmds c
                        return (c, cmds)).run' (Prng.ofSeed seed idx)
   let files := Spec.filesOf c
@@ -153,7 +153,7 @@ def showRoles (vers : List (Spec.Role × Nat)) : String :=
     s!"{v.oid}:{hexOf v.name}:{hexOf v.password}:{b2s v.super}{b2s v.canlogin}")
 
 def genRefresh (size : Nat) : Gen RefreshCase := do
-  let c1 ← Gen.genCluster size true
+  let c1 ← Gen.genCluster size true true
   -- the probed database: one with a directory; the probed table: an ordinary table with a heap file, if any
   let withDir := c1.dbs.live.filter fun db => (c1.content.lookup db.oid).isSome
   let candsOf (db : Spec.DbRow) : List Spec.ClassRow :=
